@@ -107,6 +107,7 @@ var c11Pool = []string{
 	"https://app.example/cb", "https://app.example/cb?tenant=1", "http://127.0.0.1/cb", "http://127.0.0.1:8080/cb", "http://[::1]/cb",
 	"http://localhost/cb", "http://localhost:3000/cb", "com.example.app:/oauth", "myapp://callback", "https://app.example:8443/cb",
 	"http://app.example/insecure", "https://app.example/a/b", "http://127.0.0.1/cb?tenant=1", "http://app.localhost/cb",
+	"/cb", "//app.example/cb", "app.example/cb",
 }
 
 func c11Mutations(base string) []string {
@@ -389,11 +390,20 @@ func c11PAR(c *run.Ctx, w *world.World, set []string) {
 		if err != nil {
 			continue
 		}
-		out := w.PAR(url.Values{"client_id": {"c11"}, "response_type": {"code"}, "state": {"state-0123456789"}, "scope": {"fosite"}, "redirect_uri": {r}}, a)
-		insecure := u.Scheme == "http" && !isLocalName(u.Hostname())
-		c.Case(fmt.Sprintf("par registered-uri insecure=%v accepted=%v", insecure, out.Err == nil))
-		if insecure && out.Err == nil {
-			c.Violate(run.Violation{Kind: "par-plain-http", Key: "par-plain-http", Detail: "PAR accepted plain http non-local redirect_uri " + r})
+		for _, rt := range []string{"code", "token", "id_token token", "code id_token"} {
+			scope := "fosite"
+			if strings.Contains(rt, "id_token") {
+				scope = "openid"
+			}
+			out := w.PAR(url.Values{"client_id": {"c11"}, "response_type": {rt}, "state": {"state-0123456789"}, "nonce": {"nonce-0123456789"}, "scope": {scope}, "redirect_uri": {r}}, a)
+			insecure := u.Scheme == "http" && !isLocalName(u.Hostname())
+			c.Case(fmt.Sprintf("par registered-uri rt=%q insecure=%v accepted=%v", rt, insecure, out.Err == nil))
+			if insecure && out.Err == nil {
+				c.Violate(run.Violation{Kind: "par-plain-http", Key: "par-plain-http rt=" + rt, Detail: "PAR accepted plain http non-local redirect_uri " + r + " for response_type " + rt})
+			}
+			if u.Scheme == "" && out.Err == nil {
+				c.Violate(run.Violation{Kind: "par-relative-uri", Key: "par-relative-uri", Detail: "PAR accepted the non-absolute redirect_uri " + r})
+			}
 		}
 	}
 	// unregistered target at the push endpoint
